@@ -32,9 +32,20 @@ def _f32(a):
 
 def check_digitize(case):
     bins = np.array(case["bins"], dtype=np.float64)
+    bd = case.get("bins_dtype", "float64")
+    if bd != "float64":
+        # integer edges given in an integer array (unsigned or narrow types included): the same edges
+        info = np.iinfo(bd)
+        ints = np.round(bins)
+        if bool(np.all(ints == bins)) and ints.min() >= info.min and ints.max() <= info.max and len(set(ints.tolist())) == len(ints):
+            bins = ints.astype(bd)
+        else:
+            bd = "float64"
     n = len(bins)
     desc = n >= 2 and bins[0] > bins[1]
-    facts = dict(n=n, descending=bool(desc))
+    facts = dict(n=n, descending=bool(desc), bins_dtype=bd)
+    bins_in = bins
+    bins = bins.astype(np.float64)
     xs = []
     with np.errstate(all="ignore"):
         b32 = _f32(bins)
@@ -50,7 +61,7 @@ def check_digitize(case):
     x32 = x32[np.isfinite(x32)]
     x64 = x32.astype(np.float64)
     expected = np.digitize(x64, bins, right=True)
-    tree = _dig.digitize2tree(bins, right=True)
+    tree = _dig.digitize2tree(bins_in, right=True)
     got = tree.predict(x32.reshape(-1, 1))
     require(got.shape == expected.shape, "digitize:shape", "%r" % (got.shape,), facts)
     bad = np.nonzero(got != expected)[0]
@@ -63,13 +74,13 @@ def check_digitize(case):
                         facts)
     # documented refusal
     try:
-        _dig.digitize2tree(bins, right=False)
+        _dig.digitize2tree(bins_in, right=False)
         raise Violation("digitize:right-false-accepted", "right=False did not raise", facts)
     except RuntimeError:
         pass
     edge_hit = bool(np.isin(x64, bins).any())
     labels = ["descending" if desc else "ascending", "n=1" if n == 1 else ("n=2" if n == 2 else ("n<=8" if n <= 8 else "n>8")),
-              "edge-hit" if edge_hit else "no-edge-hit", case.get("kind", "grid")]
+              "edge-hit" if edge_hit else "no-edge-hit", case.get("kind", "grid"), "bins:" + bd]
     return Outcome(labels, n >= 3 and edge_hit)
 
 
@@ -95,7 +106,16 @@ def _digitize_cases(draw, tier="quick"):
     if draw(st.booleans()):
         bins = bins[::-1]
     x = draw(st.lists(st.floats(min_value=-3e6, max_value=3e6, allow_nan=False, width=32), max_size=8))
-    return dict(bins=bins, x=x, kind=kind)
+    bd = "float64"
+    if kind == "grid" and draw(st.integers(0, 2)) == 0:
+        # small integer edges in an integer array
+        bd = draw(st.sampled_from(["int64", "uint8", "int8", "uint16", "int16", "uint64"]))
+        lo, hi = (0, 250) if bd == "uint8" else ((-120, 120) if bd == "int8" else ((0, 2000) if bd.startswith("u") else (-2000, 2000)))
+        vals = draw(st.lists(st.integers(lo, hi), min_size=min(n, 40), max_size=min(n, 40), unique=True))
+        bins = sorted(float(v) for v in vals)
+        if draw(st.booleans()):
+            bins = bins[::-1]
+    return dict(bins=bins, x=x, kind=kind, bins_dtype=bd)
 
 
 def _length_cases(tier):
